@@ -23,7 +23,7 @@ pub static PROP: Prop = Prop {
     rule: "enumerated: 48 sizes x {rows, cols, data, EC, blocks, region grid, uniqueness of dimensions, is_square, is_dmre}; default/extended/all lists; every width and height range with bounds 0..=150 in the six RangeBounds shapes on the default and the extended list; generated: filter chains of length 1-4 over white-lists from 48-bit masks (given in random order with duplicates) and encodings checking iteration order and 'first large enough'; non-trivial = range cases with a bound within +-1 of an existing dimension, lists with capacity ties, chains of >= 2 filters; distinct by case",
     assumptions: &["attribute table R6 transcribed from ISO/IEC 16022 Table 7 and ISO/IEC 21471 Table 1", "crate symbol sizes are linked to the table by their Debug names (Square10 .. Rect26x64)"],
     extra: super::no_extra,
-    fuzz_runs: 50000,
+    fuzz_runs: 200000,
 };
 
 fn list_mask(l: &SymbolList) -> u64 {
